@@ -36,6 +36,13 @@ theorem requests_consecutive (n : Int) (c : Nat) (fuel : Nat) :
     (∀ r, (requests n c fuel 0).head? = some r → r.1 = 0) :=
   requests_shape n c fuel 0
 
+/-- the HDF5 and FITS readers request exactly the slices of the data-frame reader, so everything proved
+    about `requests` (cover once, bounded, consecutive) holds for them as well -/
+theorem file_slices_eq_df (s n c : Int) :
+    Gen.hdfSliceLo s n c = Gen.dfSliceLo s n c ∧ Gen.hdfSliceHi s n c = Gen.dfSliceHi s n c ∧
+    Gen.fitsSliceLo s n c = Gen.dfSliceLo s n c ∧ Gen.fitsSliceHi s n c = Gen.dfSliceHi s n c :=
+  ⟨rfl, rfl, rfl, rfl⟩
+
 /-- the sparse probe, the patch-centre pass and the writing pass all go through the same iterator;
     the glue that makes the number of passes 1 (or 2 when centres are generated) is pinned -/
 theorem probe_and_passes_pinned :
